@@ -73,7 +73,7 @@ def case_st(draw, scenario, steps):
     if kind == "harm":
         # composite proposals need at least two particles to displace more than one label per trial
         kind2 = scenario.split(":")[1]
-        c["N"] = draw(st.integers(4, 8)) if kind2 == "mulN" else draw(st.integers(2, 4)) if kind2 == "add" else draw(st.integers(1, 4))
+        c["N"] = draw(st.integers(4, 8)) if kind2 == "mulN" else draw(st.integers(2, 4)) if (kind2 == "add" or kind2.startswith("HMC")) else draw(st.integers(1, 4))  # Hamiltonian scenarios: atoms of different masses
         c["k"] = draw(log10_floats(-1, 1.3))
         c["size"] = draw(fl(1.2, 3.0)) if kind2 == "mulN" else draw(fl(0.5, 3.0))  # in thermal widths sqrt(kT/k)
         # dt * omega_max (velocity Verlet is stable below 2); the second Hamiltonian scenario uses large steps so
